@@ -94,8 +94,9 @@ def run_mutations(pid, tier, seed, exe, wd):
     # (reduction at z, DEEP coefficients) - the adaptive substitution of the harness - only there
     multi = [s for s in stmts if s.get("ccols", 0) >= 3]
     multi = multi[::max(1, len(multi) // (3 if tier == "quick" else 12))][:3 if tier == "quick" else 12]
+    multi = [dict(m, light=True) for m in multi]
     chosen = perm + small[:1] + aux_lag[:1 if tier == "quick" else 4] + aux_plain[:1 if tier == "quick" else 4] + metas + multi + chosen
-    scs = [starkgen.scenario(rec, i, seed) for i, rec in enumerate(chosen)]
+    scs = [dict(starkgen.scenario(rec, i, seed), light=bool(rec.get("light"))) for i, rec in enumerate(chosen)]
     # every (field, hasher) combination on a small statement: what a hasher does with the integers it is handed (nonce, counters)
     # differs per hasher, so the structured mutations run once under each of them (fewer random edits, no truncations)
     nmain = len(scs)
@@ -117,7 +118,7 @@ def run_mutations(pid, tier, seed, exe, wd):
         p = os.path.join(wd, "sc_%d.ndjson" % i)
         vlib.write_ndjson(p, [sc])
         args = ["stark", "mutate", "--scenarios", p, "--mutations", msets[wire_key(sc)][0]] + (
-            ["--byte-edits", "200"] if sc.get("hasher_pass") else ["--byte-edits", "2000" if tier == "quick" else "20000", "--truncations"])
+            ["--byte-edits", "200"] if sc.get("hasher_pass") or sc.get("light") else ["--byte-edits", "2000" if tier == "quick" else "20000", "--truncations"])
         if i < nbit and sc["shape"]["n"] <= 16:
             args.append("--bitflips")
         jobs.append((sc, p, args))
